@@ -11,7 +11,7 @@ static std::string slurp(const std::string& f) { std::ifstream in(f, std::ios::b
 
 static Op fault_op(Rng& rng, const std::string& name, const std::string& ext) {
   Op f = fop("", "fault"); f.set("name", name); f.set("ext", ext);
-  static const char* kinds[] = {"truncate", "truncate", "truncate", "tearzero", "flipbit", "flipbit", "setbyte", "nul", "dupline", "dropline", "longtoken", "longline", "hugeexp", "gz", "gztrunc", "empty", "lose", "insert"};
+  static const char* kinds[] = {"truncate", "truncate", "truncate", "tearzero", "flipbit", "flipbit", "setbyte", "nul", "dupline", "dropline", "longtoken", "longline", "hugeexp", "gz", "gztrunc", "empty", "lose", "insert", "insline"};
   std::string k = kinds[rng.below(sizeof kinds / sizeof kinds[0])];
   // record-structured files (basis, settings): losing, repeating or corrupting one record is the fault that keeps the file parseable
   if ((ext == ".bas" || ext == ".set") && rng.chance(0.5)) k = rng.pick({std::string("dupline"), std::string("dropline"), std::string("dupline"), std::string("dropline"), std::string("setbyte")});
@@ -21,6 +21,10 @@ static Op fault_op(Rng& rng, const std::string& name, const std::string& ext) {
   if (k == "longtoken") { f.seti("b", rng.pick({200, 300, 8190, 8192, 8193, 9000, 20000})); f.seti("c", rng.pick({(int)'x', (int)'1', (int)'-', (int)'e', (int)'9'})); }
   if (k == "longline") f.seti("b", rng.pick({250, 257, 8190, 8193, 20000}));
   if (k == "insert") f.set("hex", hex_encode(rng.pick({std::string("\n"), std::string("  "), std::string("RANGES\n"), std::string("BOUNDS\n"), std::string(" FR BND x\n"), std::string("End\n"), std::string("ENDATA\n"), std::string("free\n"), std::string(">= <="), std::string("1e"), std::string("/0"), std::string("\r\n"), std::string(" MARKER 'MARKER' 'INTORG'\n"), std::string("ROWS\n"), std::string("int:"), std::string("= \n")})));
+  // a whole extra line at the start of the line that holds offset a: comment lines of the three formats and settings records with unusable values
+  if (k == "insline") f.set("hex", hex_encode(rng.pick({std::string("              $ comment\n"), std::string("                                       $ comment\n"), std::string("* comment\n"), std::string("\\ comment\n"), std::string("    $ c\n"),
+                                                        std::string("uint:random_seed = abc\n"), std::string("uint:random_seed = 99999999999999999999999\n"), std::string("int:iterlimit = 99999999999\n"), std::string("real:feastol = 1e9999\n"), std::string("bool:lifting = maybe\n"), std::string("uint:random_seed = -1\n"),
+                                                        std::string(" UP BND       x1        -0.0\n"), std::string(" c9: -0.0 x1 >= -0.0\n"), std::string("# comment\n")})));
   return f;
 }
 
